@@ -489,6 +489,11 @@ class Tee(Generic[T]):
     async def aclose(self) -> None:
         for child in self._children:
             await child.aclose()
+        # children that were never started cannot clean up after themselves
+        if self._buffers:
+            self._buffers.clear()
+            if isinstance(self._iterator, ACloseable):
+                await self._iterator.aclose()
 
 
 tee = Tee
